@@ -515,7 +515,7 @@ class SArr(Value):
         """1-D array as a z3 array term (lambda)."""
         if self.ndim != 1:
             raise OutsideSubset("z3 array of a non 1-D array")
-        i = z3.Int(f"k!{next(_ids)}")
+        i = z3.Int("k!lam")  # fixed name: alpha-equivalent lambdas become syntactically identical
         body = self.get((i,))
         if self.dtype == "int":
             body = z3.ToReal(body)
@@ -580,7 +580,7 @@ class SArr(Value):
         return SArr(self.shape, lambda idx: f(self.get(idx)), dtype or self.dtype)
 
     def all_term(self):
-        idx = [z3.Int(f"q!{next(_ids)}") for _ in self.shape]
+        idx = [z3.Int(f"q!all{k}") for k, _ in enumerate(self.shape)]
         rng = z3.And(*[z3.And(i >= 0, i < _len_term(s)) for i, s in zip(idx, self.shape)])
         body = self.get(tuple(idx))
         if body.sort() != z3.BoolSort():
@@ -588,7 +588,7 @@ class SArr(Value):
         return z3.ForAll(idx, z3.Implies(rng, body))
 
     def any_term(self):
-        idx = [z3.Int(f"q!{next(_ids)}") for _ in self.shape]
+        idx = [z3.Int(f"q!any{k}") for k, _ in enumerate(self.shape)]
         rng = z3.And(*[z3.And(i >= 0, i < _len_term(s)) for i, s in zip(idx, self.shape)])
         body = self.get(tuple(idx))
         if body.sort() != z3.BoolSort():
